@@ -77,6 +77,9 @@ def gen_addr(tier):
         "k": st.one_of(S.scalars(), st.sampled_from(LZ_KEYS), st.sampled_from(HZ_KEYS)), "testnet": st.booleans(),
         "form": st.sampled_from(["prv", "pub", "pub-uncompressed"]),
         "order": st.permutations(KINDS + ["pk:p2pkh:c", "pk:p2pkh:u", "pk:p2wpkh:c", "pk:h160:c", "pk:h160:u"]),
+        # how the caller spells its flags and type names: real bools / literals, or equal values of another kind
+        # (0 / 1, strings assembled at run time)
+        "flagform": st.sampled_from(["bool", "bool", "int"]),
     })
 
 
@@ -91,7 +94,14 @@ def check_addr(case, ctx):
         node = Pub(key=secp.ser_u(pt), chain_code=b"\x00" * 32, testnet=testnet)   # still the same public key
     else:
         node = Pub(key=secp.ser_c(pt), chain_code=b"\x00" * 32, testnet=testnet)
-    w = BaseWallet(master=node, testnet=testnet)
+    intflags = case.get("flagform") == "int"
+    fl = (lambda b: int(b)) if intflags else (lambda b: b)
+    rt = (lambda s_: "".join(list(s_))) if intflags else (lambda s_: s_)     # an equal string that is not the literal object
+    st_, w = call(BaseWallet, master=node, testnet=fl(testnet))
+    if st_ == "exc":
+        ctx.count("non-bool-flag-refused (not judged)")
+        intflags, fl, rt = False, (lambda b: b), (lambda s_: s_)
+        w = BaseWallet(master=node, testnet=testnet)
     pk = node.public_key           # one key object serves all PublicKey requests of this case
     for req in case["order"]:
         if req in KINDS:
@@ -104,14 +114,17 @@ def check_addr(case, ctx):
         _, typ, comp = req.split(":")
         compressed = comp == "c"
         if typ == "h160":
-            st_, h = call(pk.h160, compressed=compressed)
+            st_, h = call(pk.h160, compressed=fl(compressed))
             want = hashes.hash160(secp.ser_c(pt) if compressed else secp.ser_u(pt))
             if st_ == "exc" or h != want:
                 raise Violation("C05/publickey/h160", "PublicKey.h160(compressed=%s) = %r, expected %s (request order %s)"
                                 % (compressed, h, want.hex(), list(case["order"])))
             continue
-        what = "PublicKey.address(compressed=%s, testnet=%s, addr_type=%s) k=%#x" % (compressed, testnet, typ, k)
-        st_, a = call(pk.address, compressed=compressed, testnet=testnet, addr_type=typ)
+        what = "PublicKey.address(compressed=%r, testnet=%r, addr_type=%s) k=%#x" % (fl(compressed), fl(testnet), typ, k)
+        st_, a = call(pk.address, compressed=fl(compressed), testnet=fl(testnet), addr_type=rt(typ))
+        if st_ == "exc" and intflags:
+            ctx.count("non-bool-flag-refused (not judged)")
+            continue
         if st_ == "exc":
             raise Violation("C05/publickey/raised", "%s raised %r" % (what, a))
         key = typ if compressed else "p2pkh_uncompressed"
@@ -130,6 +143,21 @@ def check_addr(case, ctx):
         judge("C05/publickey[p2wpkh-from-uncompressed-encoding]", "PublicKey.parse(uncompressed).address()", a, exp["p2wpkh"])
         st_, a = call(pku.address, testnet=testnet, addr_type="p2pkh")
         judge("C05/publickey[p2pkh-from-uncompressed-encoding]", "PublicKey.parse(uncompressed).address(p2pkh)", a, exp["p2pkh"])
+    # the helper-level encoders, flag positional / keyword, in the caller's spelling
+    from btc_hd_wallet import helper as Hh
+    h160c = hashes.hash160(secp.ser_c(pt))
+    for name, arg, key in (("h160_to_p2pkh_address", h160c, "p2pkh"), ("h160_to_p2sh_address", exp["p2sh_p2wpkh"][3], "p2sh_p2wpkh"),
+                           ("h160_to_p2wpkh_address", h160c, "p2wpkh"), ("h256_to_p2wsh_address", exp["p2wsh"][3], "p2wsh")):
+        f = getattr(Hh, name, None)
+        if f is None:
+            continue
+        st_, a = call(f, arg, fl(testnet)) if k & 1 else call(f, arg, testnet=fl(testnet))
+        if st_ == "exc":
+            if intflags:
+                ctx.count("non-bool-flag-refused (not judged)")
+                continue
+            raise Violation("C05/helper/raised", "%s raised %r" % (name, a))
+        judge("C05/helper[%s]" % name, "%s(<hash>, testnet=%r)" % (name, fl(testnet)), a, exp[key])
     # unsupported type must not produce an address of some other kind
     st_, a = call(pk.address, addr_type="p2sh")
     if st_ == "ok" and isinstance(a, str):
